@@ -1524,7 +1524,13 @@ write_sub_module(ostream &out, Object *obj) {
     // Unwrap typedefs.
     TypeIndex wrapped = obj->_itype._wrapped_type;
     while (interrogate_type_is_typedef(wrapped)) {
-      wrapped = interrogate_type_wrapped_type(wrapped);
+      TypeIndex next = interrogate_type_wrapped_type(wrapped);
+      if (next == wrapped) {
+        // "typedef struct S { ... } S;" is recorded as a typedef that wraps
+        // itself; don't spin forever on it.
+        break;
+      }
+      wrapped = next;
     }
 
     InterrogateDatabase *idb = InterrogateDatabase::get_ptr();
@@ -3799,7 +3805,11 @@ write_module_class(ostream &out, Object *obj) {
       // Unwrap typedefs.
       TypeIndex wrapped = nested_obj->_itype._wrapped_type;
       while (interrogate_type_is_typedef(wrapped)) {
-        wrapped = interrogate_type_wrapped_type(wrapped);
+        TypeIndex next = interrogate_type_wrapped_type(wrapped);
+        if (next == wrapped) {
+          break;
+        }
+        wrapped = next;
       }
 
       // Er, we can only export typedefs to structs.
